@@ -253,6 +253,7 @@ def run(ctx):
     from .. import tstate
     r8 = ctx.rule('C01.R8', 'TSTATE', 'end-of-stream is reported only when END_STREAM was received: RST_STREAM yields ErrorAfterEndStream iff END_STREAM had been seen, whatever its code (30 rows)')
     tstate.recv_reset_rows(r8, ctx.facts)
+    tstate.local_reset_rows(r8, ctx.facts)
     r1_end_stream_handover(ctx)
     r2_fifo(ctx)
     r3_popped_delivered(ctx)
